@@ -94,6 +94,9 @@ structure Toggles where
   /-- F14: a pending backward projection stays pending until it is performed, whatever the epoch
       (the code only honours a pending flag stamped with the current epoch). -/
   f14 : Bool := false
+  /-- not a finding: the code walks transitive-firewall-callee sets and backward-projection sets in
+      hash-set order; the model walks them in ascending key order, or descending with this switch -/
+  desc : Bool := false
   deriving Repr
 
 structure St where
@@ -107,6 +110,8 @@ structure St where
   world : List (Key × Val) := []
   log : List Key := []                 -- completed executor invocations since the last op
   dirtiedEdges : Nat := 0              -- statistic
+  /-- number of times a set of ≥ 2 elements was walked in an order the code does not fix -/
+  choicePoints : Nat := 0
   deriving Repr
 
 abbrev M := StateT St (Except Err)
@@ -367,7 +372,8 @@ def repairTfc (t : Toggles) (p : Program) : Nat → Key → M Unit
     let n ← match (← getNode k) with
       | some n => pure n
       | none => throwE (.panic "repair_transitive_firewall_callees: node_info unwrap")
-    for f in n.tfc do
+    if n.tfc.length ≥ 2 then modify fun s => { s with choicePoints := s.choicePoints + 1 }
+    for f in (if t.desc then n.tfc.reverse else n.tfc) do
       let _ ← queryFor t p fuel f .repairFirewall
 
 /-- `invoke_backward_projections` + `done_backward_projection` -/
@@ -378,7 +384,8 @@ def invokeBackwardProjections (t : Toggles) (p : Program) : Nat → Key → M Un
     let mut projs : List Key := []
     for c in callers do
       if (← storedKind c) == .projection then projs := projs ++ [c]
-    for pj in projs do
+    if projs.length ≥ 2 then modify fun s => { s with choicePoints := s.choicePoints + 1 }
+    for pj in (if t.desc then projs.reverse else projs) do
       let _ ← queryFor t p fuel pj .bpp
     let n ← nodeInfoUnchecked k
     setNode k { n with pendingBP := none }
